@@ -71,6 +71,7 @@ fn main() {
     }
     let code = match args[0].as_str() {
         "C10" => dispatch(props::c10::C10, &args),
+        "C12" => dispatch(props::c12::C12, &args),
         "C13" => dispatch(props::c13::C13, &args),
         "C14" => dispatch(props::c14::C14, &args),
         "C17" => dispatch(props::c17::C17, &args),
